@@ -157,6 +157,7 @@ func init() {
 		defer s.Close(dir, "restart")
 		for _, plan := range []string{"v2.2.0", "v2.2.1"} {
 			monC10RestartAfterHandler(s, plan)
+			monC10StaleUpgradeInfo(s, plan)
 		}
 		for h := 0; h < n; h++ {
 			accts := rtAccts()
@@ -228,6 +229,7 @@ func init() {
 	streams["determinism"] = func(dir string, rng *rand.Rand, n int, tier string) {
 		s := NewStream(dir, "determinism")
 		defer s.Close(dir, "determinism")
+		monC09Parallelism(s)
 		for h := 0; h < n; h++ {
 			accts := rtAccts()
 			a, err := NewChain(dbm.NewMemDB(), tmpHome(), accts, 100000, nil)
